@@ -246,13 +246,13 @@ def LInv (lossgrad : List ℝ → ℝ × List ℝ) (n : Nat) (total : ℝ) (P0 :
     (s : EmdState ℝ) : Prop :=
   Inv n total s ∧ Consistent lossgrad s ∧ lyap P0 s ≤ L0
 
-theorem emdStep_linv (lossgrad : List ℝ → ℝ × List ℝ) (hg : GradLen lossgrad)
-    (total : ℝ) (ht : 0 < total) (P0 : List ℝ) (n : Nat) (hn : 0 < n) (L0 : ℝ)
+theorem emdStep_linv (lossgrad : List ℝ → ℝ × List ℝ) (n : Nat) (hg : GradLenAt n lossgrad)
+    (total : ℝ) (ht : 0 < total) (P0 : List ℝ) (hn : 0 < n) (L0 : ℝ)
     (hP0l : P0.length = n) (hP0s : P0.sum = total)
     (s : EmdState ℝ) (h : LInv lossgrad n total P0 L0 s) :
     LInv lossgrad n total P0 L0 (emdStep lossgrad total P0 s) := by
   obtain ⟨hi, hc, hl⟩ := h
-  refine ⟨emdStep_inv lossgrad hg total ht P0 n hn s hi,
+  refine ⟨emdStep_inv lossgrad n hg total ht P0 hn s hi,
     emd_step_loss_consistent lossgrad total P0 s hc, ?_⟩
   obtain ⟨i1, i2, i3⟩ := hi
   have := emd_lyapunov_step lossgrad total P0 s (by rw [hP0l, i1]) (by rw [i2, i1]) i3 hP0s
@@ -261,8 +261,8 @@ theorem emdStep_linv (lossgrad : List ℝ → ℝ × List ℝ) (hg : GradLen los
 /-- **never worse than the start**: for every objective, every positive starting weights, every
 total > 0 and EVERY iteration count, the objective at the returned weights is at most the objective
 at the starting point `P₀ = x0·total/Σx0` — although single accepted steps may increase it -/
-theorem emd_never_worse_than_start (lossgrad : List ℝ → ℝ × List ℝ) (x0 : List ℝ) (total : ℝ)
-    (iters : Nat) (hg : GradLen lossgrad) (hx : ∀ x ∈ x0, 0 < x) (hne : x0 ≠ []) (ht : 0 < total) :
+theorem emd_never_worse_than_start_at (lossgrad : List ℝ → ℝ × List ℝ) (x0 : List ℝ) (total : ℝ)
+    (iters : Nat) (hg : GradLenAt x0.length lossgrad) (hx : ∀ x ∈ x0, 0 < x) (hne : x0 ≠ []) (ht : 0 < total) :
     (lossgrad (emd lossgrad x0 total 0 iters)).1
       ≤ (lossgrad (x0.map (fun x => x * total / x0.sum))).1 := by
   have hn : 0 < x0.length := List.length_pos_iff.mpr hne
@@ -283,7 +283,7 @@ theorem emd_never_worse_than_start (lossgrad : List ℝ → ℝ × List ℝ) (x0
   have hinit : LInv lossgrad x0.length total P0 (lossgrad P0).1
       ⟨x0.map (fun x => Real.log (x + 0) + Real.log total - Real.log x0.sum),
         (lossgrad P0).1, (lossgrad P0).2, 1, false⟩ := by
-    refine ⟨⟨by simp, by simp [hg _, hP0], ?_⟩, ⟨?_, ?_⟩, ?_⟩
+    refine ⟨⟨by simp, hg _ (by simp [hP0]), ?_⟩, ⟨?_, ?_⟩, ?_⟩
     · show ((x0.map (fun x => Real.log (x + 0) + Real.log total - Real.log x0.sum)).map Real.exp).sum = total
       rw [hexp, hP0s]
     · show (lossgrad P0).1 = (lossgrad ((x0.map (fun x => Real.log (x + 0) + Real.log total - Real.log x0.sum)).map Real.exp)).1
@@ -294,13 +294,19 @@ theorem emd_never_worse_than_start (lossgrad : List ℝ → ℝ × List ℝ) (x0
       rw [hexp, klDiv_self]; simp
   have hfin := foldl_inv (LInv lossgrad x0.length total P0 (lossgrad P0).1)
     (fun s (_ : Nat) => emdStep lossgrad total P0 s)
-    (fun s _ hs => emdStep_linv lossgrad hg total ht P0 x0.length hn _ (by simp [hP0]) hP0s s hs)
+    (fun s _ hs => emdStep_linv lossgrad x0.length hg total ht P0 hn _ (by simp [hP0]) hP0s s hs)
     (List.range iters) _ hinit
   obtain ⟨⟨i1, _, i3⟩, ⟨c1, _⟩, hl⟩ := hfin
   rw [← c1]
   have hk := klDiv_nonneg P0 _ (by rw [i1]; simp [hP0]) hP0pos (by rw [hP0s, i3])
   unfold lyap at hl
   linarith
+
+theorem emd_never_worse_than_start (lossgrad : List ℝ → ℝ × List ℝ) (x0 : List ℝ) (total : ℝ)
+    (iters : Nat) (hg : GradLen lossgrad) (hx : ∀ x ∈ x0, 0 < x) (hne : x0 ≠ []) (ht : 0 < total) :
+    (lossgrad (emd lossgrad x0 total 0 iters)).1
+      ≤ (lossgrad (x0.map (fun x => x * total / x0.sum))).1 :=
+  emd_never_worse_than_start_at lossgrad x0 total iters (hg.at _) hx hne ht
 
 /-! ## an accepted step can increase the loss
 
